@@ -28,6 +28,7 @@
 -/
 import GocoinV.Spec.Connect
 import GocoinV.Model.ConnectTrust
+import GocoinV.Model.ConnectCache
 import GocoinV.Base.Proto
 open GocoinV GocoinV.Connect
 
@@ -140,6 +141,24 @@ def step (st : OState) (toks : List String) : OState × String :=
         | .ok u => (u, "s=ok")
         | .error e => (st.su, s!"s=err:{reprStr e}")
       ({ ch := ch', su := su' }, s!"{mr} {sr}")
+  -- hook <none|tosend|replaced|rejected> <local 0|1> <txid> <wtxid of the pool's entry> <wtxid of the block's transaction>:
+  -- `cacheSays HookCfg.current` (Model/ConnectCache: the function theorem real_pool_hook_is_honest is about) on a pool
+  -- that holds at most this one entry for the txid; the harness compares the answer with client/txpool's txChecker
+  | ["hook", state, loc, txid, ew, tw] =>
+    match Hex.decode txid, Hex.decode ew, Hex.decode tw with
+    | some txid, some ew, some tw =>
+      if loc ≠ "0" ∧ loc ≠ "1" then bad else
+      let mk (s : PoolState) : List CacheEntry := [⟨txid, ew, s, loc == "1"⟩]
+      let cache? : Option (List CacheEntry) := match state with
+        | "none" => some []
+        | "tosend" => some (mk .toSend)
+        | "replaced" => some (mk .replaced)
+        | "rejected" => some (mk .rejectedOther)
+        | _ => none
+      match cache? with
+      | some cache => (st, Proto.boolStr (cacheSays HookCfg.current cache txid tw))
+      | none => bad
+    | _, _, _ => bad
   | ["state"] => (st, s!"{Hex.encodeRaw st.ch.tip} {st.ch.index.length}")
   | ["index"] => (st, s!"{st.ch.index.length} {"|".intercalate (st.ch.index.map Hex.encodeRaw)}")
   | "inject" :: rest =>
